@@ -116,8 +116,10 @@ class C12:
             elif withflag:
                 if e["rc"] != 0:
                     sig, msg = "rejected/%s" % what(u)[0], "with the flag, text %r rejected (%r); base text %r accepted" % (sub["text"], unhex_diag(e), text)
-                elif unhex_diag(e) and not m.diags:
-                    sig, msg = "diagnostic/%s" % what(u)[0], "with the flag, text %r delivered %r" % (sub["text"], unhex_diag(e))
+                elif len(unhex_diag(e)) != len(unhex_diag(res[0]["parse"])):
+                    # the ignored item adds no diagnostic of its own (the base text may have some: deprecated options)
+                    sig, msg = "diagnostic/%s" % what(u)[0], "with the flag, text %r delivered %r; the text without the item %r" % (
+                        sub["text"], unhex_diag(e), unhex_diag(res[0]["parse"]))
                 else:
                     tree = dump_to_plain(rs["dump"]["tree"])
                     if tree != base_tree:
@@ -142,7 +144,7 @@ class C12:
         return out
 
     def strategy(self, tier):
-        hand = ["basic", "sections", "keyval", "nodefault", "names", "ptrs", "tutorial", "mixed"]
+        hand = ["basic", "sections", "keyval", "nodefault", "names", "ptrs", "tutorial", "mixed", "deprecated"]
 
         @st.composite
         def case(draw):
@@ -151,7 +153,7 @@ class C12:
                 sc = draw(st.sampled_from(hand))
                 opts = HAND[sc]
             else:
-                opts = draw(schemas(nocase=bool(flags & F_NOCASE), allow_deprecated=False))
+                opts = draw(schemas(nocase=bool(flags & F_NOCASE), allow_deprecated=True))
                 sc = opts
             toks = draw(gen_text.text_tokens(opts, flags, max_items=5, allow_unknown=False, bad_p=0.0))
             toks = [t for t in toks]
